@@ -1,5 +1,15 @@
 import KrroodVerif.Sexp
+import KrroodVerif.Model.Eql
+import KrroodVerif.Model.EqlFindings
+import KrroodVerif.Drive.EqlParse
 namespace KrroodVerif.Drive.C01
-/-- stub: replaced when the model for C01 is built -/
-def run (_ : Sexp) : String := "model=unimplemented\tspec=unimplemented\ttrig="
+open KrroodVerif KrroodVerif.Eql KrroodVerif.Drive.EqlParse
+
+def run (s : Sexp) : String :=
+  match parseCase s with
+  | none => "error=bad-case"
+  | some (w, q) =>
+    let m := evalQuery w q.toQuery
+    let sp := solutions w q
+    s!"model={showSet m}\tspec={showSet sp}\ttrig={",".intercalate (triggers w q)}\tseq={showSeq m}"
 end KrroodVerif.Drive.C01
